@@ -390,6 +390,31 @@ def real_runner(gen, dev):
     return {"ok": tree_json(res.config)}
 
 
+def observe_names(case, policies, pl):
+    """The real name-derivation functions of entities.py, called directly: on every prefix / community
+    condition of the program and on the probes of the case."""
+    from annet.rpl import PrefixMatchValue
+    from annet.rpl_generators.entities import PrefixListNameGenerator, mangle_united_community_list_name
+    ng = PrefixListNameGenerator(pl, policies)
+    pfx, mangle = [], []
+    for pol in policies:
+        for st in pol.statements:
+            for c in st.match:
+                f = field_name(c.field)
+                if f in ("ip_prefix", "ipv6_prefix"):
+                    for n in c.value.names:
+                        pfx.append([n, c.value.or_longer[0], c.value.or_longer[1], ng.get_prefix(n, c.value).name])
+                elif f in ("community", "large_community", "extcommunity_rt", "extcommunity_soo"):
+                    mangle.append([list(c.value), mangle_united_community_list_name(c.value)])
+    probes = case.get("probes") or {}
+    for n, ge, le in probes.get("pfx", []):
+        v = PrefixMatchValue(names=(n,), or_longer=(ge, le))
+        pfx.append([n, ge, le, ng.get_prefix(n, v).name])
+    for names in probes.get("mangle", []):
+        mangle.append([list(names), mangle_united_community_list_name(list(names))])
+    return {"pfx": pfx, "mangle": mangle}
+
+
 def one(case):
     import logging
     logging.disable(logging.CRITICAL)
@@ -401,6 +426,7 @@ def one(case):
     except Exception as e:  # noqa   (a builder refused the program: not an input of the generators)
         return {"build_error": type(e).__name__ + ":" + str(e)[:200]}
     prog = norm_policies(policies)
+    names = observe_names(case, policies, pl)
     policies = instrument(policies)
     gens = {}
     for name, cls in make_generators(vendor, policies, cl, pl, af, rd):
@@ -414,7 +440,7 @@ def one(case):
             continue
         rows, err = consume_partial(g, dev, tagged=(name == "policy"))
         gens[name] = {"rows": rows, "err": err, "runner": real_runner(cls(Storage()), dev)}
-    return {"prog": prog, "gens": gens}
+    return {"prog": prog, "gens": gens, "names": names}
 
 
 if __name__ == "__main__":
